@@ -23,7 +23,7 @@ ToSet(s) == {s[i] : i \in DOMAIN s}
 
 IdSets   == {SeqOfSet(S) : S \in SUBSET ToSet(V.ids)}
 AuSets   == {SeqOfSet(S) : S \in SUBSET ToSet(V.authors)}
-KindSets == {SeqOfSet(S) : S \in SUBSET ToSet(V.kinds)}
+KindSets == {SeqOfSet(S) : S \in SUBSET {V.kinds[1], V.kinds[2], V.kinds[3]}}
 
 x == V.vals[1]  y == V.vals[2]  z == V.vals[3]
 ValLists == {<<x>>, <<y>>, <<z>>, <<x, y>>, <<y, x>>, <<x, z>>, <<z, x>>, <<z, y, x>>}
@@ -48,28 +48,35 @@ NowWindows == {<<0, INF>>, <<V.now0 - 10, INF>>, <<V.now0 - 5000, INF>>, <<0, 20
 VARIABLE f
 Flt(ids, aus, ks, tags, w, lim, scr, alw) ==
     [ids |-> ids, authors |-> aus, kinds |-> ks, tags |-> tags, since |-> w[1], until |-> w[2],
-     limit |-> lim, screen |-> scr, allow |-> alw]
+     limit |-> lim, screen |-> scr, allow |-> alw, fam |-> "?"]
+Fam(g, name) == [g EXCEPT !.fam = name]
 
 \* A: planner x limit x window
 FA == \E i \in IdSets, a \in AuSets, k \in KindSets, t \in TagSetsFew, l \in Limits, w \in WindowsFew :
-          f = Flt(i, a, k, t, w, l, 0, 0)
+          f = Fam(Flt(i, a, k, t, w, l, 0, 0), "A")
 \* B: tag constraints in depth
 FB == \E a \in {<<>>, <<V.authors[1]>>, <<V.authors[1], V.authors[2]>>}, k \in {<<>>, <<V.kinds[1]>>, <<V.kinds[1], V.kinds[2]>>},
-         t \in TagSetsDeep, l \in Limits : f = Flt(<<>>, a, k, t, <<0, INF>>, l, 0, 0)
+         t \in TagSetsDeep, l \in Limits : f = Fam(Flt(<<>>, a, k, t, <<0, INF>>, l, 0, 0), "B")
 \* C: all windows on a few plans
 FC == \E a \in {<<>>, <<V.authors[1]>>}, k \in {<<>>, <<V.kinds[1]>>}, t \in {<<>>, <<Con(V.names[1], <<x>>)>>},
-         w \in Windows, l \in {1, 2, INF} : f = Flt(<<>>, a, k, t, w, l, 0, 0)
+         w \in Windows, l \in {1, 2, INF} : f = Fam(Flt(<<>>, a, k, t, w, l, 0, 0), "C")
 \* D: screening functions
 FD == \E a \in AuSets, k \in {<<>>, <<V.kinds[1]>>}, t \in TagSets1, l \in {1, 2, INF}, s \in 1..4 :
-          f = Flt(<<>>, a, k, t, <<0, INF>>, l, s, 0)
+          f = Fam(Flt(<<>>, a, k, t, <<0, INF>>, l, s, 0), "D")
 \* E: scrape gate: allowances x limits x windows around "now"
 FE == \E k \in KindSets, l \in Limits, w \in NowWindows, alw \in 0..3, s \in {0, 2} :
-          f = Flt(<<>>, <<>>, k, <<>>, w, l, s, alw)
+          f = Fam(Flt(<<>>, <<>>, k, <<>>, w, l, s, alw), "E")
 \* F: allowances never matter when the filter names ids / authors / tags
 FF == \E i \in {<<>>, <<V.ids[1]>>}, a \in {<<>>, <<V.authors[1]>>}, t \in TagSets1, alw \in 1..3, l \in {1, INF} :
-          (Len(i) + Len(a) + Len(t) > 0) /\ f = Flt(i, a, <<>>, t, <<0, INF>>, l, 0, alw)
+          (Len(i) + Len(a) + Len(t) > 0) /\ f = Fam(Flt(i, a, <<>>, t, <<0, INF>>, l, 0, alw), "F")
 
-Init == FA \/ FB \/ FC \/ FD \/ FE \/ FF
+\* G: addressable kinds with constraints on the d tag (several current events of one author and kind)
+dn == V.names[4]
+FG == \E a \in {<<>>, <<V.authors[1]>>, <<V.authors[1], V.authors[2]>>}, k \in {<<>>, <<V.kinds[4]>>, <<V.kinds[4], V.kinds[1]>>},
+         vs \in {<<x>>, <<y>>, <<x, y>>, <<y, x>>, <<z, y>>}, extra \in {<<>>, <<Con(V.names[1], <<x, y>>)>>}, l \in {1, 2, INF} :
+          f = Fam(Flt(<<>>, a, k, <<Con(dn, vs)>> \o extra, <<0, INF>>, l, 0, 0), "G")
+
+Init == FA \/ FB \/ FC \/ FD \/ FE \/ FF \/ FG
 Next == UNCHANGED f
 Spec == Init /\ [][Next]_f
 Emit == PrintT(<<"CASE", ToJson(f)>>)
